@@ -62,3 +62,11 @@ pub assume_specification<T: Ord, A: std::alloc::Allocator>[ std::collections::Bi
         None => hview(old(h)).len() == 0 && hview(final(h)) == hview(old(h)),
         Some(x) => exists|i: int| 0 <= i < hview(old(h)).len() && hview(old(h))[i] == x && hview(final(h)) == hview(old(h)).remove(i),
     };
+// HashMap::extend with another HashMap taken by value (vstd has no specification): the entries of the argument are inserted,
+// overriding entries with the same key
+pub uninterp spec fn into_map<K, V, I>(it: I) -> Map<K, V>;
+pub broadcast axiom fn axiom_into_map_hashmap<K, V>(h: HashMap<K, V>)
+    ensures #[trigger] into_map::<K, V, HashMap<K, V>>(h) == h@;
+pub assume_specification<K, V, S, A, I>[ <HashMap<K, V, S, A> as Extend<(K, V)>>::extend::<I> ](m: &mut HashMap<K, V, S, A>, it: I)
+    where K: Eq + std::hash::Hash, S: std::hash::BuildHasher, A: std::alloc::Allocator, I: IntoIterator<Item = (K, V)>
+    ensures final(m)@ == old(m)@.union_prefer_right(into_map::<K, V, I>(it));
